@@ -557,7 +557,7 @@ func (k *walker) walk(e Val, mem interface{}, js interface{}, hasJS bool, p []st
 			return k.fail(p, "must be %q, is %q", e.S, s)
 		}
 		if e.K == "anytime" {
-			if _, err := time.Parse(time.RFC3339Nano, s); err != nil {
+			if _, err := time.Parse(time.RFC3339Nano, s); err != nil || !rfc3339.MatchString(s) {
 				return k.fail(p, "must be an RFC 3339 string, is %q", s)
 			}
 		}
